@@ -178,7 +178,7 @@ def g1 (g : GParams) (p : LParams) : LParams :=
   match g.numLevels with | some n => if 0 ≤ n ∧ n ≤ 6 then { p with NumLevels := n } else p | none => p
 def g2 (g : GParams) (p : LParams) : LParams := match g.allowMCT with | some b => { p with AllowMCT := b } | none => p
 def g3 (g : GParams) (p : LParams) : LParams :=
-  match g.rate with | some r => if r > 0 then { p with Rate := r } else p | none => p
+  match g.rate with | some r => if r ≥ 0 then { p with Rate := r } else p | none => p   -- 0 overrides: no rate target
 def g4 (g : GParams) (p : LParams) : LParams :=
   match g.rateLevels with | some l => if l.length > 0 then { p with RateLevels := l } else p | none => p
 def g5 (g : GParams) (p : LParams) : LParams :=
